@@ -141,9 +141,9 @@ def run(ctx: Ctx):
     lits = G.rule_literals(cname)
     shapes = [G.terms[t]["shape"] for t in terms if t in G.terms]
     regexes = re.findall(r"/((?:[^/\\]|\\.)*)/", crule["shape"]) + [m for s in shapes for m in re.findall(r"/((?:[^/\\]|\\.)*)/", s)]
-    stops = [_comment_regex_stops_at(rx) for rx in regexes]
-    ok_c = bool(regexes) and all(st == {"\n"} for st in stops) and not lits
-    if not ok_c and regexes and not lits and all(rx.lstrip("\\").startswith("#") for rx in regexes) and all(st is None or st == {"\n"} for st in stops):
+    verdicts = [_comment_regex_verdict(rx) for rx in regexes]
+    ok_c = bool(regexes) and all(vd == "ok" for vd in verdicts) and not lits
+    if not ok_c and regexes and not lits and all(vd in ("ok", "undecided") for vd in verdicts):
         ctx.undecided("R17.b", "src/gotranx/ode.lark::comment::terminal", f"the comment terminal {regexes} is one token that starts with `#`, but where it stops is not understood", "src/gotranx/ode.lark")
         ok_c = None
     ok_c is None or ctx.check(
@@ -232,29 +232,72 @@ def run(ctx: Ctx):
 TEXT_TRANSFORMS = {"sub", "subn", "replace", "strip", "rstrip", "lstrip", "splitlines", "split", "join", "expandtabs", "translate", "lower", "upper", "format", "encode", "decode", "partition", "rpartition", "removeprefix", "removesuffix"}
 
 
-def _comment_regex_stops_at(rx: str):
-    """The characters at which `#<class>*` stops, when the regular expression is `#` followed by a starred character
-    class (or `.`); None for any other form."""
+def _comment_regex_verdict(rx: str) -> str:
+    """`ok`: the regular expression is `#` followed by single-character items none of which can match a line feed and the
+    last of which is a starred class that accepts every character except the line feed (the token runs to the end of
+    the line and stops only there).  `violation`: it does not start with `#`, an item can match a line feed (the token can
+    span lines), or the last item refuses a character other than the line feed (the rest of the line is parsed as
+    model text).  `undecided`: any other form (groups, alternatives, look-arounds)."""
     import re._constants as rc
     import re._parser as rp
 
     try:
         items = list(rp.parse(rx))
     except Exception:
+        return "undecided"
+    if not items or items[0] != (rc.LITERAL, ord("#")):
+        return "violation"
+
+    def charset(op, arg):
+        """(negated, set of characters) a single-character item matches; None when it is not understood"""
+        if op == rc.ANY:
+            return (True, {"\n"})
+        if op == rc.LITERAL:
+            return (False, {chr(arg)})
+        if op == rc.NOT_LITERAL:
+            return (True, {chr(arg)})
+        if op == rc.CATEGORY:
+            ws = {" ", "\t", "\n", "\r", "\f", "\v"}
+            return {rc.CATEGORY_SPACE: (False, ws), rc.CATEGORY_NOT_SPACE: (True, ws)}.get(arg)
+        if op == rc.IN:
+            neg = bool(arg) and arg[0][0] == rc.NEGATE
+            chars: set = set()
+            for o, a in arg[1:] if neg else arg:
+                if o == rc.LITERAL:
+                    chars.add(chr(a))
+                elif o == rc.RANGE:
+                    chars |= {chr(c) for c in range(a[0], a[1] + 1)} if a[1] - a[0] < 512 else set()
+                    if a[1] - a[0] >= 512:
+                        return None
+                elif o == rc.CATEGORY and a == rc.CATEGORY_SPACE:
+                    chars |= {" ", "\t", "\n", "\r", "\f", "\v"}
+                else:
+                    return None
+            return (neg, chars)
         return None
-    if len(items) != 2 or items[0] != (rc.LITERAL, ord("#")) or items[1][0] not in (rc.MAX_REPEAT,):
-        return None
-    lo, hi, body = items[1][1]
-    if lo != 0 or hi != rc.MAXREPEAT or len(body) != 1:
-        return None
-    op, arg = body[0]
-    if op == rc.ANY:
-        return {"\n"}
-    if op == rc.NOT_LITERAL:
-        return {chr(arg)}
-    if op == rc.IN and arg and arg[0][0] == rc.NEGATE and all(o == rc.LITERAL for o, _ in arg[1:]):
-        return {chr(c) for _, c in arg[1:]}
-    return None
+
+    parsed = []
+    for op, arg in items[1:]:
+        star = False
+        if op in (rc.MAX_REPEAT, rc.MIN_REPEAT):
+            lo, hi, body = arg
+            if len(body) != 1:
+                return "undecided"
+            star = lo == 0 and hi == rc.MAXREPEAT and op == rc.MAX_REPEAT
+            op, arg = body[0]
+        cs = charset(op, arg)
+        if cs is None:
+            return "undecided"
+        parsed.append((star, cs))
+    for _star, (neg, chars) in parsed:
+        if ("\n" in chars) != neg:
+            return "violation"  # this item can match a line feed
+    if not parsed:
+        return "violation"  # `#` alone: the text would be a separate token
+    star, (neg, chars) = parsed[-1]
+    if not star:
+        return "undecided"
+    return "ok" if neg and chars == {"\n"} else "violation"
 
 
 def check_raw_text(ctx: Ctx, rule: str):
